@@ -73,6 +73,7 @@ type verifC13Exec struct {
 	uploads        int
 	lostArrivalMin int       // oldest lock age (minutes) at which an upload reached the storage after the holder found its lock lost
 	newestLock     time.Time // creation time of the newest lock file in the store (kept by the monitor)
+	lateArrivals   []string  // uploads handed to the storage with an already cancelled context
 	staleUploads   []string  // uploads the holder issued to the storage while its newest lock file was older than the staleness limit
 }
 
@@ -127,6 +128,12 @@ func TestVerif_C13(t *testing.T) {
 						return nil
 					},
 					Filter: func(op *gatebe.Op) bool {
+						if traffic && op.Key.Type == backend.PackFile && op.Kind == "Save" && op.DeadOnArrival {
+							// the request was handed to the storage with a context that was already cancelled (a
+							// storage that does not look at the context - local, mem - would still write): the
+							// holder issued a modification after it had been told to stop
+							st.lateArrivals = append(st.lateArrivals, fmt.Sprintf("%s at %s", op.Key.String(), time.Now().Format("15:04:05")))
+						}
 						if traffic && op.Key.Type == backend.PackFile && op.Kind == "Save" && !st.newestLock.IsZero() && st.foreign == 0 && st.holding && st.lockCtx != nil && st.lockCtx.Err() == nil {
 							// (after a foreign removal the newest file may be an orphan of an earlier failed Remove; that case is judged by the gap rule of the monitor)
 							// the request has passed the connection limiter and reaches the storage now
@@ -309,6 +316,9 @@ func TestVerif_C13(t *testing.T) {
 			if traffic && st.lost {
 				r.Outcome(fmt.Sprintf("holder+uploads: lock lost; upload reached the storage after that with lock age >= %d min", st.lostArrivalMin))
 			}
+			if len(st.lateArrivals) > 0 {
+				st.bad = append([]string{fmt.Sprintf("late-arrival: %d upload(s) were handed to the storage after the holder's context had been cancelled (held back by the frozen backend or the connection limiter and let through afterwards): %v", len(st.lateArrivals), st.lateArrivals)}, st.bad...)
+			}
 			if len(st.staleUploads) > 0 {
 				st.bad = append([]string{fmt.Sprintf("stale-upload: the holder issued %d upload(s) to the storage while every other process judges its lock stale: %v", len(st.staleUploads), st.staleUploads)}, st.bad...)
 			}
@@ -408,4 +418,11 @@ func verifC13Monitor(x *xplore.Exec, quantum time.Duration) {
 	if msg != "" && len(st.bad) == 0 {
 		st.bad = append(st.bad, msg)
 	}
+}
+
+// TestVerifRace_C13 runs every scenario body free (gates answer at once, no oracle) under the race detector.
+func TestVerifRace_C13(t *testing.T) {
+	xplore.Free = 2
+	defer func() { xplore.Free = 0 }()
+	TestVerif_C13(t)
 }
